@@ -35,6 +35,67 @@ example : sinkText (textDocWrites
                         .figure ['"'] [] [.char [] [] [] [] [] ['&']]], none⟩])
     = ['<', 'a', '\n', '\n', '&', '\x0c'] := by decide
 
+/-! ### every `showpageno` choice, and raw glyph mode (`laparams=None`) -/
+
+/-- For every tree and BOTH `showpageno` choices: what a text sink receives from `TextConverter` = per page the
+optional `Page <id>` header, the in-order text of the hierarchy, one form feed.  The header is the template
+regenerated from `receive_layout`; the translator checks that it is written under `if self.showpageno:` before
+`render(ltpage)`. -/
+theorem C11_text_pageno (showpageno : Bool) (ps : List Page) :
+    sinkText (textDocWritesPn showpageno ps) = specTextPn showpageno ps := by
+  induction ps with
+  | nil => rfl
+  | cons p ps ih =>
+    simp only [sinkText, textDocWritesPn, specTextPn, List.flatMap_cons, List.flatten_append] at ih ⊢
+    rw [ih]
+    cases showpageno <;>
+      simp [textPageWritesPn, specTextPage, specPageHeader, text_items, Gen.ConvertXml.t_text_page_end,
+        Gen.ConvertXml.t_text_page_no]
+
+/-- without `showpageno` (every path of `high_level`) this is the output `C11_text` speaks about -/
+theorem C11_text_pageno_off (ps : List Page) :
+    textDocWritesPn false ps = textDocWrites ps ∧ specTextPn false ps = specText ps := by
+  constructor
+  · have h : textPageWritesPn false = textPageWrites := by
+      funext p; simp [textPageWritesPn, textPageWrites]
+    simp [textDocWritesPn, textDocWrites, h]
+  · have h : (fun p => specPageHeader false p ++ specTextPage p) = specTextPage := by
+      funext p; simp [specPageHeader]
+    simp [specTextPn, specText, h]
+
+mutual
+theorem raw_item (i : Item) (h : noBox i = true) : specTextItem i = glyphText i := by
+  cases i <;> simp_all [noBox, specTextItem, glyphText, raw_items]
+theorem raw_items (is : List Item) (h : noBoxL is = true) : specTextL is = glyphTextL is := by
+  cases is with
+  | nil => rfl
+  | cons i is =>
+    simp only [noBoxL, Bool.and_eq_true] at h
+    simp [specTextL, glyphTextL, raw_item i h.1, raw_items is h.2]
+end
+
+/-- Raw glyph mode (`laparams=None`: no layout analysis, so no text box anywhere in the tree): the output is the
+glyph texts in order and the form feed per page (after the optional header) - no character is added. -/
+theorem C11_text_raw (showpageno : Bool) (ps : List Page) (h : ∀ p ∈ ps, noBoxL p.kids = true) :
+    sinkText (textDocWritesPn showpageno ps) =
+      ps.flatMap (fun p => specPageHeader showpageno p ++ glyphTextL p.kids ++ ['\x0c']) := by
+  rw [C11_text_pageno]
+  induction ps with
+  | nil => rfl
+  | cons p ps ih =>
+    simp only [specTextPn, List.flatMap_cons] at ih ⊢
+    rw [ih (fun q hq => h q (by simp [hq]))]
+    simp [specTextPage, raw_items p.kids (h p (by simp))]
+
+example : sinkText (textDocWritesPn true
+    [⟨['7'], [], ['0'], [.textbox ['0'] [] false [.textline [] [.char [] [] [] [] [] ['a'], .anno ['\n']]]], none⟩,
+     ⟨['8'], [], ['0'], [.char [] [] [] [] [] ['b'], .figure [] [] [.char [] [] [] [] [] ['c']]], none⟩])
+    = ['P', 'a', 'g', 'e', ' ', '7', '\n', 'a', '\n', '\n', '\x0c', 'P', 'a', 'g', 'e', ' ', '8', '\n', 'b', 'c', '\x0c'] := by
+  decide
+
+example : noBoxL [.char [] [] [] [] [] ['b'], .figure [] [] [.char [] [] [] [] [] ['c'], .image [] [] none]] = true ∧
+    noBoxL [.figure [] [] [.textbox [] [] false []]] = false := by decide
+
 /-! ## Sinks: a binary sink decoded with its codec = the characters a text sink receives -/
 
 /-- For every codec (an incremental encoder as a state machine, with ANY decoder that inverts
@@ -61,6 +122,17 @@ theorem C11_sink_text {σ : Type} (c : Codec σ) (decode : Bytes → Option Str)
   have h := C11_sink c decode hinv true (textDocWrites ps)
     (by have := C11_text ps; simp only [sinkText] at this; rw [this]; exact hrep)
   rw [C11_text] at h
+  exact h
+
+/-- the same for a converter constructed with `showpageno` -/
+theorem C11_sink_text_pageno {σ : Type} (c : Codec σ) (decode : Bytes → Option Str)
+    (hinv : ∀ s st bs, c.encodePiece false c.init s = some (st, bs) → decode bs = some s)
+    (showpageno : Bool) (ps : List Page) (hrep : (c.encodePiece false c.init (specTextPn showpageno ps)).isSome) :
+    ∃ bs, sinkBinary c true (textDocWritesPn showpageno ps) = some bs ∧
+      decode bs = some (specTextPn showpageno ps) := by
+  have h := C11_sink c decode hinv true (textDocWritesPn showpageno ps)
+    (by have := C11_text_pageno showpageno ps; simp only [sinkText] at this; rw [this]; exact hrep)
+  rw [C11_text_pageno] at h
   exact h
 
 /-- xml output into a binary sink, decoded = the characters a text sink receives for the same header -/
@@ -196,6 +268,23 @@ theorem C11_fmt_d_plain (x : SRat) : Plain (fmtD x) := (fmtD_num x).plain
 
 theorem C11_bbox2str_plain (x0 y0 x1 y1 : SRat) : Plain (Gen.ConvertFmt.bbox2str x0 y0 x1 y1) :=
   (bbox2str_num x0 y0 x1 y1).plain
+
+/-- `LTCurve.get_pts` (regenerated from layout.py: `",".join("%.3f,%.3f" % p for p in self.pts)`) is `Plain`
+for every point list -/
+theorem C11_get_pts_plain (pts : List (SRat × SRat)) : Plain (Gen.ConvertFmt.get_pts pts) :=
+  (get_pts_num pts).plain
+
+/-- every `<line>` / `<rect>` / `<curve>` element is in the domain of `C11_xml_wf`, whatever its numbers and points
+are: no hypothesis left -/
+theorem C11_path_items_ok (strip : Bool) (lw a b c d : SRat) (pts : List (SRat × SRat)) :
+    ItemOk strip (.line (fmtD lw) (Gen.ConvertFmt.bbox2str a b c d)) ∧
+    ItemOk strip (.rect (fmtD lw) (Gen.ConvertFmt.bbox2str a b c d)) ∧
+    ItemOk strip (.curve (fmtD lw) (Gen.ConvertFmt.bbox2str a b c d) (Gen.ConvertFmt.get_pts pts)) :=
+  ⟨⟨C11_fmt_d_plain lw, C11_bbox2str_plain a b c d⟩, ⟨C11_fmt_d_plain lw, C11_bbox2str_plain a b c d⟩,
+   ⟨C11_fmt_d_plain lw, C11_bbox2str_plain a b c d, C11_get_pts_plain pts⟩⟩
+
+example : Gen.ConvertFmt.get_pts [((false, 1), (true, 5/2)), ((false, 0), (false, 1/8))] =
+    "1.000,-2.500,0.000,0.125".toList := by decide +kernel
 
 /-- e.g. a curve and a glyph whose numeric fields come from the formatters are in the domain, for all numbers -/
 theorem C11_numeric_items_ok (strip : Bool) (lw a b c d sz : SRat) (pts font cs nc text : Str)
